@@ -208,11 +208,21 @@ func (fc *FnCtx) loopHead(li *loopInfo, st *State) {
 			e := fc.val(phi)
 			fc.oblig("inv-init", fmt.Sprintf("loop%d/range-index in [-1, len]", li.index), and(app("<=", "(- 1)", e.S), app("<=", e.S, maxLen)), b.Instrs[0].Pos())
 		}
+		bound := rangeIntBound(li, phi)
+		if bound != nil {
+			// implicit invariant of `for i := range n` (a rotated loop: the test is at the end
+			// of the body): the counter stays below n (entry and every back edge are checked)
+			e := fc.val(phi)
+			fc.oblig("inv-init", fmt.Sprintf("loop%d/range counter below its bound", li.index), and(app("<=", "0", e.S), app("<", e.S, fc.val(bound).S)), b.Instrs[0].Pos())
+		}
 		v := fc.freshVal("loop_"+phiName(phi), phi.Type())
 		fc.vals[phi] = v
 		fc.assume(fc.typeFacts(v, st.NA))
 		if phi.Comment == "rangeindex" {
 			fc.assume(and(app("<=", "(- 1)", v.S), app("<=", v.S, maxLen)))
+		}
+		if bound != nil {
+			fc.assume(and(app("<=", "0", v.S), app("<", v.S, fc.val(bound).S)))
 		}
 	}
 	fc.havocLoopRegions(li, st)
@@ -300,6 +310,9 @@ func (fc *FnCtx) backEdge(li *loopInfo, from *ssa.BasicBlock, k int, st *State) 
 	for phi, v := range over {
 		if phi.Comment == "rangeindex" {
 			fc.oblig("inv-preserve", fmt.Sprintf("loop%d/range-index in [-1, len]", li.index), and(app("<=", "(- 1)", v.S), app("<=", v.S, maxLen)), pos)
+		}
+		if bound := rangeIntBound(li, phi); bound != nil {
+			fc.oblig("inv-preserve", fmt.Sprintf("loop%d/range counter below its bound", li.index), and(app("<=", "0", v.S), app("<", v.S, fc.val(bound).S)), pos)
 		}
 	}
 	if spec == nil {
